@@ -199,6 +199,16 @@ func checkSnapshotDir(dst string) error {
 	return nil
 }
 
+func dedupInts(s []int) []int {
+	out := s[:0]
+	for i, v := range s {
+		if i == 0 || v != s[i-1] {
+			out = append(out, v)
+		}
+	}
+	return out
+}
+
 func renderRows(rows []outRow) []string {
 	out := make([]string, 0, len(rows))
 	for _, r := range rows {
@@ -232,6 +242,7 @@ func runMeasureHistory(x *verifkit.Ctx, c mCase) (st histStats, err error) {
 	flushedBatches := 0
 	open := map[int]*openQuery{}
 	pinnedMerges := map[int]int{}
+	boundarySid := 0
 	defer func() {
 		for _, oq := range open {
 			_, _, _ = oq.drain()
@@ -256,6 +267,38 @@ func runMeasureHistory(x *verifkit.Ctx, c mCase) (st histStats, err error) {
 	}
 	for i, op := range c.Ops {
 		what := fmt.Sprintf("after op %d (%s)", i, op.Kind)
+		if op.Kind == "boundarybig" {
+			// a series whose blocks straddle a primary-block boundary: the last series of the first primary
+			// block of the largest part receives > 8192 further points (the position is read from the part)
+			bs := tb.boundarySeries()
+			if bs == 0 {
+				continue
+			}
+			boundarySid = bs
+			op = mOp{Kind: "write", Variant: op.Variant}
+			for r := 0; r < c.Ops[i].WideN; r++ {
+				seq++
+				row := mRow{S: bs, T: 1000 + int64(r), V: 1}
+				for range c.Schemas[0].Fams {
+					row.Tags = append(row.Tags, nil)
+				}
+				row.Fields = append(row.Fields, mVal{K: "int", I: seq})
+				op.Rows = append(op.Rows, row)
+			}
+			sids = append(sids, bs)
+			sort.Ints(sids)
+			sids = dedupInts(sids)
+		}
+		if op.Query != nil && boundarySid != 0 {
+			q := *op.Query
+			q.Sids = append([]int(nil), q.Sids...)
+			for k, sid := range q.Sids {
+				if sid <= 0 {
+					q.Sids[k] = boundarySid + sid // 0 = the boundary series, -1 / -2 its predecessors
+				}
+			}
+			op.Query = &q
+		}
 		switch op.Kind {
 		case "write", "wide", "dense":
 			v := op.Variant % len(c.Schemas)
@@ -1150,5 +1193,80 @@ func TestVerifC19Measure(t *testing.T) {
 			return nil
 		},
 		MinLabelFrac: map[string]float64{"snapshot taken": 0.5},
+	})
+}
+
+// ---------------------------------------------------------------------------------------------
+// C08 — no block-, part- or series-level pruning structure discards a matching row (measure).
+// Parts with several primary blocks and a series whose blocks straddle a primary-block boundary,
+// queried by single series, small series subsets and narrow time windows.
+// ---------------------------------------------------------------------------------------------
+
+func TestVerifC08MeasurePruning(t *testing.T) {
+	sc := mSchema{Fams: []mFamSpec{{Name: "tf", Tags: []mTagSpec{{Name: "a", Type: "str"}}}}, Fields: []mFieldSpec{{Name: "v", Type: "int"}}}
+	verifkit.Run(t, verifkit.Spec[mCase]{
+		Property: "C08", Unit: "measure_pruning",
+		Rule: "a measure part with several primary blocks (2700-3600 one-row series) plus one series of > 8192 points placed at a generated position among them " +
+			"(so that its blocks may straddle a primary-block boundary), optionally written in two batches and merged; queries select that series alone, " +
+			"small series subsets around it and narrow time windows; oracle: every query equals the model (series-, primary-block-, block- and part-level " +
+			"pruning by series id and time bounds never drops a matching row) and single-series results equal the restriction of the all-series scan; " +
+			"non-trivial = the part has > 1 primary block",
+		Gen: func(t *rapid.T, _ *verifkit.KnownSet) mCase {
+			c := mCase{Schemas: []mSchema{sc}}
+			n := rapid.IntRange(2700, 3600).Draw(t, "n")
+			base := 100
+			big := base + rapid.IntRange(n/3, n-1).Draw(t, "bigpos")
+			var seq int64
+			mkBig := func(from, cnt int) mOp {
+				op := mOp{Kind: "write"}
+				for i := 0; i < cnt; i++ {
+					seq++
+					op.Rows = append(op.Rows, mRow{S: big, T: int64(from + i), V: 1, Tags: [][]mVal{{{K: "str", S: "x"}}}, Fields: []mVal{{K: "int", I: seq}}})
+				}
+				return op
+			}
+			cnt := rapid.IntRange(8193, 8400).Draw(t, "cnt")
+			c.Ops = append(c.Ops, mOp{Kind: "wide", WideN: n, WideBase: base, WideT: 5, WideStep: int64(rapid.IntRange(0, 1).Draw(t, "step"))}, mOp{Kind: "flush"})
+			q := func(sids []int, a, b int64) {
+				c.Ops = append(c.Ops, mOp{Kind: "query", Query: &mQuery{Sids: sids, MinT: a, MaxT: b, Order: rapid.SampledFrom([]string{"sid", "asc", "desc"}).Draw(t, "order")}})
+			}
+			if rapid.IntRange(0, 3).Draw(t, "boundary") > 0 {
+				// the big series sits exactly on the primary-block boundary of the merged part
+				c.Ops = append(c.Ops, mOp{Kind: "boundarybig", WideN: cnt}, mOp{Kind: "flush"}, mOp{Kind: "merge", Pick: []int{0, 1}})
+				q([]int{0}, -1, 1<<30)
+				q([]int{0}, 1000, 1005)
+				q([]int{0}, int64(1000+cnt-3), 1<<30)
+				q([]int{-1, 0}, -1, 1<<30)
+				q([]int{0, 1 - 0 + 0}, -1, 1<<30)
+				q([]int{-2}, -1, 1<<30)
+			} else {
+				if rapid.Bool().Draw(t, "split") {
+					c.Ops = append(c.Ops, mkBig(1000, cnt/2), mOp{Kind: "flush"}, mkBig(1000+cnt/2, cnt-cnt/2), mOp{Kind: "flush"}, mOp{Kind: "merge", Pick: []int{0, 1, 2}})
+				} else {
+					c.Ops = append(c.Ops, mkBig(1000, cnt), mOp{Kind: "flush"}, mOp{Kind: "merge", Pick: []int{0, 1}})
+				}
+				q([]int{big}, -1, 1<<30)
+				q([]int{big}, 1000, 1005)
+				q([]int{big}, int64(1000+cnt-3), 1<<30)
+				q([]int{big - 1, big, big + 1}, -1, 1<<30)
+				q([]int{big + 1}, -1, 1<<30)
+				q([]int{base, big, base + n - 1}, 0, int64(1000+rapid.IntRange(0, cnt).Draw(t, "cut")))
+			}
+			return c
+		},
+		SampleOf: sampleOfCase,
+		Check: func(x *verifkit.Ctx, c mCase) error {
+			st, err := runMeasureHistory(x, c)
+			if err != nil {
+				return err
+			}
+			x.LabelIf(st.multiPrimary, "part with >1 primary block")
+			x.LabelIf(st.merges > 0, "merged")
+			if st.multiPrimary {
+				x.NonTrivial()
+			}
+			return nil
+		},
+		MinLabelFrac: map[string]float64{"part with >1 primary block": 0.8},
 	})
 }
